@@ -73,7 +73,7 @@ def _concrete(cell, vals, seed=0):
     """run the cell on the real library; returns (failures, log, error)"""
     from . import harness
     fn = _resolve(cell.func)
-    env = harness.ConcEnv(vals, rtol=cell.conc_rtol, seed=seed)
+    env = harness.ConcEnv(vals, rtol=cell.conc_rtol, seed=seed, exact=(cell.domain == 'f'))
     err = None
     import warnings
     try:
@@ -109,7 +109,7 @@ def run_cell(cell, twin=False):
         shim.NP.reset()
         shim.NP.linalg.stubs.clear()
         shim.SCIPYLINALG.__dict__['stubs'].clear()
-        env = harness.SymEnv(twin=twin, ob_timeout_ms=cell.ob_timeout_ms)
+        env = harness.SymEnv(twin=twin, ob_timeout_ms=cell.ob_timeout_ms, domain=cell.domain)
         holder['env'] = env
         try:
             fn(env, **cell.params)
@@ -218,7 +218,7 @@ def _replay(cell, res, obname, vals, p, tb=None):
     cenv, err = _concrete(cell, vals)
     rec = {'cell': cell.name, 'obligation': obname, 'path': p['decisions'],
            'vals': _vals_json(vals), 'func': cell.func, 'params': cell.params,
-           'conc_rtol': cell.conc_rtol}
+           'conc_rtol': cell.conc_rtol, 'domain': cell.domain}
     if cenv.assume_failed:
         rec['note'] = 'model violates harness assumption(s) %s after rounding to floats' % cenv.assume_failed
         res['unreproduced'].append(rec)
@@ -316,7 +316,7 @@ def _brief(r):
     for w in r.get('witness_fail', [])[:2]:
         print('      witness mismatch: %s' % (str(w)[:400],), flush=True)
     for u in r.get('unreproduced', [])[:2]:
-        print('      unreproduced cex: %s %s' % (u.get('obligation'), u.get('note', '')), flush=True)
+        print('      unreproduced cex: %s %s %s' % (u.get('obligation'), u.get('note', ''), u.get('tb', '')), flush=True)
 
 
 # ---------------------------------------------------------------------------
@@ -418,7 +418,7 @@ def main_property(prop, tier, cells, meta, jobs=None):
         out_lines.append('   cell=%s clause=%r path=%s concrete=%s' % (
             v['cell'], v['obligation'], v['path'], (v.get('concrete_failures') or v.get('concrete_error'))))
         vcount += 1
-    bounds_cells = [{'cell': c.name, 'bounds': c.bounds, 'domain': {'a': 'AlgReal (normalised rational functions with sqrt atoms)', 'z': 'raw z3 Real terms'}[c.domain],
+    bounds_cells = [{'cell': c.name, 'bounds': c.bounds, 'domain': {'a': 'AlgReal (normalised rational functions with sqrt atoms)', 'z': 'raw z3 Real terms', 'f': 'IEEE-754 binary64 (z3 FloatingPoint sort, RNE)'}[c.domain],
                      'max_paths': c.max_paths, 'query_timeout_ms': c.q_timeout_ms, 'params': {k: (v if isinstance(v, (int, float, str, bool, type(None))) else str(v)) for k, v in c.params.items()}} for c in sel]
     if not samples:
         samples = [{'note': 'no path completed'}]
@@ -491,7 +491,7 @@ def _z3ver():
 def replay_file(path):
     with open(path) as f:
         v = json.load(f)
-    cell = Cell(v['cell'], v['func'], v.get('params') or {}, conc_rtol=v.get('conc_rtol', 1e-6))
+    cell = Cell(v['cell'], v['func'], v.get('params') or {}, conc_rtol=v.get('conc_rtol', 1e-6), domain=v.get('domain', 'a'))
     env, err = _concrete(cell, _vals_load(v['vals']))
     print('replay of %s clause %r on the real library:' % (v['cell'], v['obligation']))
     print('  inputs:', {k: x for k, x in env.used.items()})
